@@ -10,6 +10,7 @@ from vf.world.cmds import ROOT
 from vf.world.proj import Project, SHAPES
 
 META = {
+    "solver_reasoned": 'symbolic booleans (existence, flags, prompt answer, symlink) and selectors.',
     "real": ["gwf.plugins.clean.clean (body)", "gwf.plugins.clean._delete_file", "gwf.core.Target.protected/flattened_outputs", "gwf.filtering.NameFilter/EndpointFilter/filter_generic",
              "gwf.core.FileSpecHashes.invalidate/close", "gwf.core.Graph.from_targets/endpoints"],
     "stubs": ["VFS (with one output optionally being a symbolic link to an unrelated file)", "click.confirm scripted", "workflow loading (vf/world/cmds.py)"],
